@@ -85,14 +85,26 @@ def _dict(b0, b1, b2, v0, v1, v2):
     return d
 
 
-def dict_op(b0: bool, b1: bool, b2: bool, v0: int, v1: int, v2: int, ki: int, v: int) -> None:
+def dict_op(b0: bool, b1: bool, b2: bool, v0: int, v1: int, v2: int, ki: int, v: int, none_at: int = 0) -> None:
     """
-    pre: 0 <= ki < 15
+    pre: 0 <= ki < 15 and 0 <= none_at <= 5
     post: True
     """
     hlib.enter(locals())
     op = hlib.PARAM["dop"]
     text, model = DICT_OPS[op]
+    # None, empty and false values are values like any other (stored, read back, distinguished from a missing key)
+    none_at = hlib.concrete(none_at, 0, 5)
+    if none_at == 1:
+        v0 = None
+    elif none_at == 2:
+        v1 = None
+    elif none_at == 3:
+        v = None
+    elif none_at == 4:
+        v0, v1, v2 = [], '', False
+    elif none_at == 5:
+        v2 = None
     d = _dict(b0, b1, b2, v0, v1, v2)
     k = KEYS[ki]
     exp, after = model(dict(d), k, v)
@@ -115,13 +127,16 @@ if isinstance(hlib.PARAM, dict) and "w" in hlib.PARAM:
     prewarm(WRITE[hlib.PARAM["w"]] + "\ndel d[k]\nlen(d)", WRITE[hlib.PARAM["w"]] + "\nkeys(d)")
 
 
-def key_roundtrip(ki: int, kint: int, use_int: bool, v: int) -> None:
+def key_roundtrip(ki: int, kint: int, use_int: bool, v: int, v_none: bool = False) -> None:
     """
     pre: 0 <= ki < 15 and -2 <= kint <= 11
     post: True
     """
     hlib.enter(locals())
     w, r = hlib.PARAM["w"], hlib.PARAM["r"]
+    if v_none:
+        hlib.assume(w in (0, 1, 4))          # (None cannot be the operand of +=)
+        v = None
     k = kint if use_int else KEYS[ki]
     names = {'d': {}, 'k': k, 'v': v, 'zero': 0, 'one': 1}
     if r < 4:
